@@ -22,6 +22,11 @@ Grammar (everything else is refused):
                <= >= == != on numbers (a <= b rendered (a < b) || (a == b)), len(x),
                / on numbers, numbers + - *.
 Types: Z (Python int), T (the number type of the model: `numops`), list T, list (list T).
+The above is the grammar of the Z-typed functions (_partition, _randomizedPartition, _randomizedSelect, gen_refs_recursive,
+uniform_reference_points: class FnTr).  selSPEA2 is translated by class SpeaTr (natural numbers as Coq nats, individuals as
+pairs of number lists, lists of lists, Python numbers `pynum` for a list that holds ints first and floats later, `for`
+with `break`, `while` with fuel, `del`, `sort()`, `reversed(sorted(..))`; see the comment at SPEA and design_notes/C07.md);
+its top level and the bodies of its two archive branches are three separately refusable units.
 Trusted (documented in design_notes/C07.md): the signature table below (parameter types, which parameter is
 the mutated array, fuel of `while` loops / recursion and the value an exhausted fuel reads as — the conventions
 of the hand model), negative indices are not wrapped (getz reads index max(i,0); the code never reads one).
